@@ -2,13 +2,13 @@ SPEC = {
     "id": "C42",
     "level": "proof",
     "lean_modules": ["PallasVerif.Props.C42"],
-    "required_theorems": ["read_all", "tip_is_last", "binary_search_picks_containing_chunk", "binary_search_total",
+    "required_theorems": ["read_all", "stack_length", "no_chunk_db_is_empty", "single_chunk_db_is_empty", "two_chunk_db_serves_the_older", "tip_is_last", "binary_search_picks_containing_chunk", "binary_search_total",
                           "read_from_point_eq", "from_existing_point", "from_fuzzy_slot", "absent_exact_fails", "right_hash_wrong_slot_fails", "right_slot_wrong_hash_fails",
                           "fuzzy_before_first_fails", "fuzzy_full_fails_at_witness", "read_from_point_total", "getTip_ne_panic", "from_origin"],
     "streams": [{"name": "immdb", "quick": 150, "thorough": 4000, "timeout": 3000}],
-    "rule": "databases: verbatim copies of the test_data chunk files (quick: all three; thorough: every contiguous subset of >= 2 "
-            "files) and re-chunked layouts of 2..36 real blocks (runs or strided samples of the 1777+ blocks of test_data) cut "
-            "into 2..6 non-empty chunks with empty relative slots in the primary index; the newest chunk is always present and "
+    "rule": "databases: verbatim copies of the test_data chunk files (quick: all three, two single-file subsets and the empty directory; "
+            "thorough: every contiguous subset incl. the three single-file ones and the empty one — with 0 or 1 file nothing is immutable) and re-chunked layouts of 2..36 real blocks (runs or strided samples of the 1777+ blocks of test_data) cut "
+            "into 0, 1 (one case in eight each) or 2..6 non-empty chunks with empty relative slots in the primary index; the newest chunk is always present and "
             "skipped. Per database: read_blocks, get_tip and 8..150 read_blocks_from_point queries (existing blocks as exact "
             "points, block slots / slots between blocks / before the first / beyond the tip as fuzzy points, wrong hash at a "
             "block slot, right hash at a wrong slot, blocks of the skipped chunk, and `near misses` of a block: its hash at slot-1 / slot+1 / "
@@ -37,5 +37,5 @@ SPEC = {
                    "(binary search finds no chunk) although the property and the function's doc promise the suffix from the first block "
                    "at or after the slot; the pinned test read_blocks_from_point_test demands CannotFindBlock for Point::Specific(0, "
                    "vec![]) on the test database, so it cannot be repaired without editing a test: known finding, full clause FuzzyFull "
-                   "refuted at a witness, from_fuzzy_slot is the proved part. Self-tests run: (1) chunk_binary_search `Less => left = mid + 1` -> exit 1, VIOLATION binary-search-wrong-chunk / existing-exact-point-refused / fuzzy-point-refused where=between-blocks with replays; (2) (3) seeded change C42-a (acceptance check of iterate_till_point reduced to `hash.is_empty() || hash ==`) -> exit 1, VIOLATION absent-exact-point-accepted where=between-blocks with a two-line replay (block hash at an empty slot below it); pop+reverse rewritten as truncate + into_iter().rev().collect() -> quiet (only the KNOWN-FINDING line).",
+                   "refuted at a witness, from_fuzzy_slot is the proved part. Self-tests run: (1) chunk_binary_search `Less => left = mid + 1` -> exit 1, VIOLATION binary-search-wrong-chunk / existing-exact-point-refused / fuzzy-point-refused where=between-blocks with replays; (2) (4) seeded change C42-b (newest chunk kept when it is the only file) -> exit 1, VIOLATION read-all-differs / tip-differs / origin-wrong-error / absent-exact-point-accepted where=empty-db / fuzzy-point-wrong-suffix where=empty-db with 2-line replays on the single-file copy of 02019; (3) seeded change C42-a (acceptance check of iterate_till_point reduced to `hash.is_empty() || hash ==`) -> exit 1, VIOLATION absent-exact-point-accepted where=between-blocks with a two-line replay (block hash at an empty slot below it); pop+reverse rewritten as truncate + into_iter().rev().collect() -> quiet (only the KNOWN-FINDING line).",
 }
